@@ -601,6 +601,60 @@ def rule_weight_group(prop, repo):
     return R.finish()
 
 
+def extra_z_powers(repo, b):
+    """For a line evaluation (T, X, extra Fq2 …, P): {parameter index: k} when at every call site the extra argument is z(X)^k of
+    the very point X passed as the second argument (through z-preserving maps: `-Q` has Q's z), else None."""
+    from core.terms import strip
+    from .norm import Norm
+    F = repo.F
+    N = Norm(repo)
+    ins = b.rec.get("inputs") or []
+    extras = [i for i, t in enumerate(ins) if "Fq2" in t and "groups::G<" not in t]
+    if not extras:
+        return {}
+
+    def zsrc(t):
+        for _ in range(8):
+            t = strip(t)
+            if t[0] == "call" and t[2] and (N.z_preserving(t[1].d) or (t[1].name == "neg" and N.z_preserving(t[1].d))):
+                t = t[2][0]
+            else:
+                break
+        return strip(t)
+
+    def power(t, src, depth=0):
+        t = strip(t)
+        if depth > 6:
+            return None
+        if (t[0] == "call" and t[1].name == "z" and len(t[2]) == 1 and zsrc(t[2][0]) == src) or (t[0] == "field" and t[2] == 2 and zsrc(t[1]) == src):
+            return 1
+        if t[0] == "call" and t[1].name == "squared" and len(t[2]) == 1:
+            k = power(t[2][0], src, depth + 1)
+            return None if k is None else 2 * k
+        if t[0] == "call" and t[1].name == "mul" and len(t[2]) == 2:
+            k1, k2 = power(t[2][0], src, depth + 1), power(t[2][1], src, depth + 1)
+            return None if k1 is None or k2 is None else k1 + k2
+        return None
+    out = {}
+    sites = 0
+    for cb in F.fn_bodies():
+        tb = None
+        for bb, t in cb.calls():
+            if (t.get("fn") or {}).get("res_def") != b.rec["path"]:
+                continue
+            tb = tb or repo.tb(cb)
+            a = tb.call_args(bb)
+            if len(a) != len(ins):
+                return None
+            sites += 1
+            src = zsrc(a[1])
+            for i in extras:
+                k = power(a[i], src)
+                if k is None or out.setdefault(i, k) != k:
+                    return None
+    return out if sites else None
+
+
 def rule_weight_lines(prop, repo):
     F = repo.F
     R = Rule("R-WEIGHT-LINES", "line / tangent evaluations and twist-Frobenius maps are weight-homogeneous: num and den slots of equal weight, prepared coefficients a common-factor "
@@ -627,6 +681,20 @@ def rule_weight_lines(prop, repo):
         if not b:
             continue
         name = b.name
+        if role == "chord_eval" and len(b.rec.get("inputs") or []) > 3:
+            pw = extra_z_powers(repo, b)
+            if pw is None:
+                R.instance()
+                R.fail_closed("%s:weight:%s:extras" % (prop, name), "%s takes extra field parameters that are not, at every call site, powers of the z of the point passed next to them" % name)
+                continue
+            pts = [gpoint("s1"), gpoint("s2"), gpoint(None)]
+            args, k = [], 0
+            for i, ty in enumerate(b.rec["inputs"]):
+                if i in pw:
+                    args.append(W(form({"s2": pw[i]}), cls="z"))
+                else:
+                    args.append(pts[k])
+                    k += 1
         args = by_sig(b, args)
         R.instance()
         dom, rs = run_fn(F, b, args)
